@@ -44,6 +44,7 @@ HV(v) == Force([i \in 1..Len(v) |-> RFromHex(v[i])])
 HM(m) == Force([i \in 1..Len(m) |-> HV(m[i])])
 FinV(v) == \A i \in 1..Len(v) : RIsFiniteHex(v[i])
 FinM(m) == \A i \in 1..Len(m) : FinV(m[i])
+Fin3(x) == \A i \in 1..Len(x) : FinM(x[i])
 
 Tol6 == RPow("10", -6)
 Tol9 == RPow("10", -9)
@@ -259,6 +260,8 @@ KnotsStep(ev) ==
         tolp(col) == RAdd(RMul(Tol6, ps[col]), Tiny)
         told(col, d, Ti) == RAdd(RMul(Tol6, RDiv(ps[col], RPow(Ti, d))), Tiny)
         close(x, y, t) == RLe(RAbs(RSub(x, y)), t)
+        \* a NaN/Inf answer fails every judgement of this query; it is never parsed (parsing it would abort the validation)
+        fin == Fin3(ev.out.kv) /\ Fin3(ev.out.lv) /\ Fin3(ev.out.rv) /\ FinV(ev.out.segdur)
         \* The right end of piece i is reached through the breakpoints (t0 + cumulative sums, rounded at the magnitude of the start time):
         \* the local time used there is bp[i+1] - bp[i], not the duration T_i the piece was built for.  The difference dt_i is known exactly
         \* and moves the d-th derivative by dt_i x (d+1)-th derivative: that much (x2, plus its natural scale) is added to the tolerance.
@@ -268,25 +271,25 @@ KnotsStep(ev) ==
                          ELSE RMul(RMul("2", dtL[i]), RAdd(RAbs(nxt[i][d][col]), RDiv(ps[col], RPow(pr.T[i], d + 1))))
         info(code, i, d) == [order |-> o.order, dim |-> o.dim, N |-> N, i |-> i, d |-> d]
         kpos == [i \in 1..(N + 1) |-> Cand("C01", "knot.pos",
-                    \A col \in 1..D : close(H(ev.out.kv[i][1][col]), pr.P[i][col], RAdd(tolp(col), IF i = N + 1 THEN xt(col, 0, N) ELSE Zero)), info("kv", i - 1, 0))]
+                    fin /\ \A col \in 1..D : close(H(ev.out.kv[i][1][col]), pr.P[i][col], RAdd(tolp(col), IF i = N + 1 THEN xt(col, 0, N) ELSE Zero)), info("kv", i - 1, 0))]
         lpos == [i \in 1..N |-> Cand("C01", "knot.leftpos",
-                    \A col \in 1..D : close(H(ev.out.lv[i][1][col]), pr.P[i + 1][col], RAdd(tolp(col), xt(col, 0, i))), info("lv", i, 0))]
+                    fin /\ \A col \in 1..D : close(H(ev.out.lv[i][1][col]), pr.P[i + 1][col], RAdd(tolp(col), xt(col, 0, i))), info("lv", i, 0))]
         rpos == [i \in 1..N |-> Cand("C01", "knot.rightpos",
-                    \A col \in 1..D : close(H(ev.out.rv[i][1][col]), pr.P[i][col], tolp(col)), info("rv", i - 1, 0))]
+                    fin /\ \A col \in 1..D : close(H(ev.out.rv[i][1][col]), pr.P[i][col], tolp(col)), info("rv", i - 1, 0))]
         bstart == [d \in 1..(s - 1) |-> Cand("C01", "knot.bcstart",
-                    \A col \in 1..D : close(H(ev.out.kv[1][d + 1][col]), pr.BS[d][col], told(col, d, pr.T[1])), info("kv", 0, d))]
+                    fin /\ \A col \in 1..D : close(H(ev.out.kv[1][d + 1][col]), pr.BS[d][col], told(col, d, pr.T[1])), info("kv", 0, d))]
         bend == [d \in 1..(s - 1) |-> Cand("C01", "knot.bcend",
-                    \A col \in 1..D : /\ close(H(ev.out.kv[N + 1][d + 1][col]), pr.BE[d][col], RAdd(told(col, d, pr.T[N]), xt(col, d, N)))
-                                      /\ close(H(ev.out.lv[N][d + 1][col]), pr.BE[d][col], RAdd(told(col, d, pr.T[N]), xt(col, d, N))),
+                    fin /\ \A col \in 1..D : (close(H(ev.out.kv[N + 1][d + 1][col]), pr.BE[d][col], RAdd(told(col, d, pr.T[N]), xt(col, d, N)))
+                                      /\ close(H(ev.out.lv[N][d + 1][col]), pr.BE[d][col], RAdd(told(col, d, pr.T[N]), xt(col, d, N)))),
                     info("kv", N, d))]
         \* derivatives 1..s-1 agree from both sides at interior knots (C02, the part visible through evaluate)
         both == [q \in 1..((N - 1) * (s - 1)) |->
                     LET i == ((q - 1) \div (s - 1)) + 1  d == q - (i - 1) * (s - 1)
                     IN Cand("C02", "knot.bothsides",
-                           \A col \in 1..D : close(H(ev.out.lv[i][d + 1][col]), H(ev.out.rv[i + 1][d + 1][col]),
+                           fin /\ \A col \in 1..D : close(H(ev.out.lv[i][d + 1][col]), H(ev.out.rv[i + 1][d + 1][col]),
                                                    RAdd(told(col, d, RMin(pr.T[i], pr.T[i + 1])), xt(col, d, i))), info("lr", i, d))]
         \* (a segment's duration is the difference of its breakpoints, up to the rounding of however the implementation obtains it)
-        sd == Cand("C01", "knot.segdur", Len(ev.out.segdur) = N /\ \A i \in 1..N :
+        sd == Cand("C01", "knot.segdur", fin /\ Len(ev.out.segdur) = N /\ \A i \in 1..N :
                        RLe(RAbs(RSub(H(ev.out.segdur[i]), RSub(o.bp[i + 1], o.bp[i]))), RMul("2", UlpOfMax(o.bp[i + 1], o.bp[i]))), info("sd", 0, 0))
         \* identical bits whatever was asked before and in whatever order the knots are visited (C10); kj = the highest derivative
         \* of the pieces at the knots, which jumps there: evaluation at a knot belongs to the piece that starts at it
@@ -323,7 +326,7 @@ EvalStep(ev) ==
         key == <<"eval", o.key, o.t0, ev.t, ev.d>>
         info == [order |-> o.order, dim |-> o.dim, t |-> ev.t, d |-> ev.d]
         cands == <<Cand("C11", "eval.latest",
-                        \A col \in 1..o.dim : WithinUlps(H(ev.out.val[col]), want[col], RAdd(mag[col], Tiny), 64), info),
+                        FinV(ev.out.val) /\ \A col \in 1..o.dim : WithinUlps(H(ev.out.val[col]), want[col], RAdd(mag[col], Tiny), 64), info),
                    MemoCand("C10", "memo.eval", key, ev.out.val, info)>>
     IN StepRec(cands, <<"evals">>, MemoPut(memo, key, ev.out.val), obs)
 TrEval == IsEvent("eval") /\ sc' = EvalStep(Ev) /\ Query(Ev.obj, "eval") /\ Record
